@@ -1,4 +1,17 @@
 import MlodaVerif.Drv.Sched
+import MlodaVerif.Model.PlanCore
+open Lean Sched
 namespace Drv.C04
-def handle := Drv.Sched.handle
+
+def handle (op : String) (j : Json) : Json :=
+  match op with
+  | "planCore" =>
+    let ancL : List (Nat × List Nat) := (arrF j "anc").map (fun q => match asArr q with
+      | [f, ps] => (asNat f, (asArr ps).map asNat) | _ => (0, []))
+    let anc := fun f => match ancL.find? (fun q => q.1 == f) with | some q => q.2 | none => []
+    let buckets := (arrF j "buckets").map (fun b => (asArr b).map asNat)
+    let p := PlanCore.planCore anc buckets
+    jObj [("steps", jArr (p.map fun st => jObj [("outs", jNats st.outs), ("req", jNats st.req)])), ("planOK", planOK p)]
+  | _ => Drv.Sched.handle op j
+
 end Drv.C04
